@@ -39,13 +39,13 @@ ASSUMPTIONS = [
 ]
 HORIZON_S = 600
 HEAVY_CASES = True
-SEEDS = ["prod", "rand", "over", "rdef", "cplx", "mixed", "mpoN", "mpoR", "mpoNN", "mpdm", "swept-sum", "swept-applied"]
+SEEDS = ["prod", "rand", "over", "rdef", "cplx", "mixed", "mpoN", "mpoR", "mpoNN", "mpdm", "swept-sum", "swept-applied", "tiny-scale", "huge-scale"]
 # the last two carry a HISTORY: a gauge sweep (flags: to_right=True, centre at site 0), then a sum / an operator application that keeps
 # those flags on tensors that are no longer right-canonical
 
 
 def COST(desc):
-    return desc["n"] ** 2 * (3 if desc["kind"] in ("over", "rdef", "mpoNN", "mpdm", "swept-sum", "swept-applied") else 1) * (6 if desc.get("mode") == "vc" else 1)
+    return desc["n"] ** 2 * (3 if desc["kind"] in ("over", "rdef", "mpoNN", "mpdm", "swept-sum", "swept-applied", "tiny-scale", "huge-scale") else 1) * (6 if desc.get("mode") == "vc" else 1)
 
 
 def BOUND(tier):
@@ -68,7 +68,7 @@ def cases(tier, seed):
                         continue
                     if quick and n == 4 and kind in ("mixed", "mpdm"):
                         continue
-                    if kind in ("swept-sum", "swept-applied") and n < 2:
+                    if kind in ("swept-sum", "swept-applied", "tiny-scale", "huge-scale") and n < 2:
                         continue
                     yield {"fam": fam, "n": n, "sector": sec, "kind": kind, "mode": "bfs"}
                     if kind in ("prod", "rand", "over", "rdef", "cplx", "mixed") and n >= 2:
@@ -106,6 +106,12 @@ def make_seed(ch, sec, kind):
     if kind == "rdef":
         a = ch.random_mps(sec, m, "x")
         return a.add(ch.random_mps(sec, m, "x").scale(2.0)).add(ch.random_mps(sec, max(2, m - 2), "y"))
+    if kind in ("tiny-scale", "huge-scale"):
+        # the represented vector has an extreme overall scale carried by the TENSORS (not by the prefactor), and a Schmidt spectrum that
+        # spans four orders of magnitude: gauge moves and lossless compression are scale invariant
+        a = ch.random_mps(sec, 1, "x")                   # (nearly) a product state: one dominant Schmidt value per bond ...
+        b = ch.random_mps(sec, m, "y")                   # ... plus a full-rank admixture five orders of magnitude below
+        return a.add(b.scale(1e-5)).scale(1e-12 if kind == "tiny-scale" else 1e9)
     if kind == "swept-sum":
         a = ch.random_mps(sec, m, "x", cplx=True)
         b = ch.random_mps(sec, m, "y")
@@ -279,8 +285,9 @@ def run_case(desc, seed):
     st0 = M.State()
     st0.regs["x"] = x
     st0.sh["x"] = M.dense_of(x)
-    if np.linalg.norm(st0.sh["x"]) < 1e-13:
+    if np.linalg.norm(st0.sh["x"]) < 1e-13 * (1e-13 if kind == "tiny-scale" else 1.0):
         return {"skipped": 1, "outcome": "zero-seed"}
+    st0.aux["zero_floor"] = 1e-13 * min(1.0, np.linalg.norm(st0.sh["x"]))     # "numerically zero" is relative to the scale of the seed
     k = M.kind_of(x)
     qn0 = np.asarray(x.qntot).copy()
 
